@@ -75,6 +75,7 @@ func H_c01_sender() {
 				symAssert(count(s.trafficStats.Sent, mid) == 1, "stats-list-transferred-mid-once")
 			} else {
 				symAssert(count(h.sent, mid) == 0, "unconfirmed-never-reported-sent")
+				symAssert(count(s.trafficStats.Sent, mid) == 0, "stats-do-not-list-unconfirmed-transfers")
 			}
 		} else {
 			symAssert(count(s.trafficStats.Sent, mid) == 0, "stats-do-not-list-untransferred")
